@@ -271,6 +271,11 @@ pub struct Sched {
     /// sites excluded from random perturbation (bit per site index)
     pub quiet_mask: AtomicU64,
     pub injected: AtomicU64,
+    /// a long, bounded delay forced at one site (index + 1; 0 = none) for the next `forced_left` visits
+    pub forced_site: AtomicUsize,
+    pub forced_us: AtomicU64,
+    pub forced_left: AtomicU64,
+    pub forced_hits: AtomicU64,
 }
 
 thread_local! {
@@ -296,6 +301,10 @@ pub fn sched() -> &'static Arc<Sched> {
             trace: Mutex::new(Vec::new()),
             quiet_mask: AtomicU64::new(0),
             injected: AtomicU64::new(0),
+            forced_site: AtomicUsize::new(0),
+            forced_us: AtomicU64::new(0),
+            forced_left: AtomicU64::new(0),
+            forced_hits: AtomicU64::new(0),
         });
         let callback_sched = sched.clone();
         verif::set_point_callback(Some(Arc::new(move |site: Site| callback_sched.on_point(site))));
@@ -330,6 +339,15 @@ impl Sched {
                     }
                     thread::sleep(Duration::from_micros(50));
                 }
+                return;
+            }
+        }
+        // forced delay: stretches one critical section / gap so that another thread's racing step lands inside it
+        if self.forced_site.load(Ordering::Relaxed) == index + 1 {
+            let left = self.forced_left.load(Ordering::Relaxed);
+            if left > 0 && self.forced_left.compare_exchange(left, left - 1, Ordering::SeqCst, Ordering::SeqCst).is_ok() {
+                self.forced_hits.fetch_add(1, Ordering::SeqCst);
+                thread::sleep(Duration::from_micros(self.forced_us.load(Ordering::Relaxed)));
                 return;
             }
         }
@@ -372,7 +390,16 @@ impl Sched {
         self.p_sleep.store(p_sleep, Ordering::Relaxed);
     }
 
-    pub fn quiet(&self) { self.set_random(1, 0, 0, 0); }
+    pub fn quiet(&self) { self.set_random(1, 0, 0, 0); self.clear_forced(); }
+
+    /// Every one of the next `times` visits of `site` sleeps `micros` (bounded, so it is allowed at lock-holding sites too).
+    pub fn force_delay(&self, site: Site, micros: u64, times: u64) {
+        self.forced_us.store(micros, Ordering::SeqCst);
+        self.forced_left.store(times, Ordering::SeqCst);
+        self.forced_site.store(site_index(site) + 1, Ordering::SeqCst);
+    }
+
+    pub fn clear_forced(&self) { self.forced_site.store(0, Ordering::SeqCst); self.forced_left.store(0, Ordering::SeqCst); }
 
     /// Arms a gate: the next thread (other than `skip_tid`, if non-zero) reaching `site` is held until `release`.
     pub fn arm(&self, site: Site, skip_tid: u64) {
